@@ -209,3 +209,33 @@ open Sig Sig.Search
     (fun (b, s, (ks, kd)) => !resEq (Gen.Read ks kd heap0 b s) ((read (cvt ks kd) heap0 b s).bind fun h' r => .ok h' (b, (r.1, (r.2 : Int)))))
     (fun (b, s, (ks, kd)) => s!"Read dst={s} src={repr b} kinds={repr ks},{repr kd}")
   report "SignalGen.Eq.Xfer" "Read" n w
+
+-- ------------------------------------------------------------------------------------------- SignalGen.Eq.ConvFn
+namespace Sig.Search
+def heap2 : Heap := [[10, 11, 12, 13, 14, 15], [1065353216, 3212836864, 1056964608, 0, 2147483648, 1073741824]]
+/-- small headers of kind `k` over block `blk` of `heap2` -/
+def bufsK (k : Kind) (blk : Nat) : List Buf := Id.run do
+  let mut out := []
+  for ch in [0, 1, 2] do
+    for off in [0, 1] do
+      for cap in [0, 2, 3, 4] do
+        for len in List.range (cap + 1) do
+          out := { ch := ch, blk := blk, off := off, len := len, cap := cap, kind := k, depth := k.width : Buf } :: out
+  return out
+def convCases (ks kd : Kind) (sblk dblk : Nat) : List (Buf × Buf) :=
+  (bufsK ks sblk).flatMap fun s => (bufsK kd dblk).map fun d => (s, d)
+def convBad (f : ConvFn) (g : Heap → Buf → Buf → Res (Buf × Int)) : Buf × Buf → Bool :=
+  fun (s, d) => !resEq (g heap2 d s) ((convertFn f heap2 s d).bind fun h' n => .ok h' (d, (n : Int)))
+end Sig.Search
+#eval do
+  let cases := convCases Kind.f32 Kind.f64 1 0 ++ convCases Kind.f32 Kind.f32 1 1
+  let (n, w) := firstBad cases (fun (s, d) => convBad .floatAsFloat (fun h d s => Gen.FloatAsFloat_fn s.kind.fmt d.kind.fmt h d s) (s, d)) (fun (s, d) => s!"src={repr s} dst={repr d}")
+  report "SignalGen.Eq.ConvFn" "FloatAsFloat_fn" n w
+#eval do
+  let cases := convCases Kind.i8 Kind.f32 0 1 ++ convCases Kind.i16 Kind.f64 0 0
+  let (n, w) := firstBad cases (fun (s, d) => convBad .signedAsFloat (fun h d s => Gen.SignedAsFloat_fn s.kind.intTy d.kind.fmt h d s) (s, d)) (fun (s, d) => s!"src={repr s} dst={repr d}")
+  report "SignalGen.Eq.ConvFn" "SignedAsFloat_fn" n w
+#eval do
+  let cases := convCases Kind.u8 Kind.f32 0 1 ++ convCases Kind.u16 Kind.f64 0 0
+  let (n, w) := firstBad cases (fun (s, d) => convBad .unsignedAsFloat (fun h d s => Gen.UnsignedAsFloat_fn s.kind.intTy d.kind.fmt h d s) (s, d)) (fun (s, d) => s!"src={repr s} dst={repr d}")
+  report "SignalGen.Eq.ConvFn" "UnsignedAsFloat_fn" n w
